@@ -497,7 +497,7 @@ func cachePathFromURL(root string, u url.URL) (string, error) {
 	// validate it is within root
 	cacheFile = filepath.Clean(cacheFile)
 	cleanroot := filepath.Clean(root)
-	if !strings.HasPrefix(cacheFile, cleanroot) {
+	if cacheFile == cleanroot || !strings.HasPrefix(cacheFile, cleanroot) {
 		return "", fmt.Errorf("cache file %s is not within root %s", cacheFile, cleanroot)
 	}
 	return cacheFile, nil
